@@ -273,6 +273,14 @@ func (tx *Transaction) Collection(idx variables.RuleVariable) collection.Collect
 		return tx.variables.argsPostNames
 	case variables.ResBodyProcessor:
 		return tx.variables.resBodyProcessor
+	case variables.ResBodyError:
+		return tx.variables.resBodyError
+	case variables.ResBodyErrorMsg:
+		return tx.variables.resBodyErrorMsg
+	case variables.ResBodyProcessorError:
+		return tx.variables.resBodyProcessorError
+	case variables.ResBodyProcessorErrorMsg:
+		return tx.variables.resBodyProcessorErrorMsg
 	case variables.TX:
 		return tx.variables.tx
 	case variables.Rule:
@@ -2499,6 +2507,18 @@ func (v *TransactionVariables) All(f func(v variables.RuleVariable, col collecti
 		return
 	}
 	if !f(variables.XML, v.xml) {
+		return
+	}
+	if !f(variables.ResBodyError, v.resBodyError) {
+		return
+	}
+	if !f(variables.ResBodyErrorMsg, v.resBodyErrorMsg) {
+		return
+	}
+	if !f(variables.ResBodyProcessorError, v.resBodyProcessorError) {
+		return
+	}
+	if !f(variables.ResBodyProcessorErrorMsg, v.resBodyProcessorErrorMsg) {
 		return
 	}
 	if !f(variables.Time, v.time) {
